@@ -5,6 +5,7 @@ import (
 	"encoding/json"
 	"fmt"
 	"io"
+	"math"
 	"mime/multipart"
 	"strconv"
 
@@ -110,7 +111,14 @@ func prepareMultipart(payload []byte, uploadMap UploadMap) (body []byte, content
 			return b.Bytes(), w.FormDataContentType(), e
 		}
 
-		_, e = io.Copy(fw, uploadVariable.upload.File)
+		var file io.Reader = uploadVariable.upload.File
+		// one upload can be used at several places and go to several services, also at the
+		// same time: read it from its start without moving the offset the readers share
+		if readerAt, ok := file.(io.ReaderAt); ok {
+			file = io.NewSectionReader(readerAt, 0, math.MaxInt64)
+		}
+
+		_, e = io.Copy(fw, file)
 		if e != nil {
 			return b.Bytes(), w.FormDataContentType(), e
 		}
